@@ -17,6 +17,7 @@ PARTS = {
     "C03": ("reqwire", "pool", "h2"),
     "C01": ("pool", "h2"),
     "C10": ("establish", "pool"),
+    "C11": ("establish", "pool"),
     "C14": ("pool", "h2"),
     "C16": ("establish", "pool", "exchange"),
 }
